@@ -341,4 +341,99 @@ theorem chkPsk_total (h : CH) (k : Bool → Chk) (hk : ∀ b, ∃ r, k b = .ok r
       repeat' (first | exact ⟨_, rfl⟩ | exact hk _ | split)
 
 
+theorem shRealVersion_total (h : SH) (hd : h.supportedVersions.isDup = false) :
+    ∃ rv, shRealVersion h = .ok rv := by
+  unfold shRealVersion
+  split
+  · cases hs : h.supportedVersions with
+    | dup => rw [hs] at hd; exact Bool.noConfusion hd
+    | absent => exact ⟨_, rfl⟩
+    | present v => exact ⟨_, rfl⟩
+  · exact ⟨_, rfl⟩
+
+
+theorem chkTls13_total (h : CH) (hd : h.supportedVersions.isDup = false)
+    (hn : h.supportedVersions.isPresentNone = false) (h1 : h.psk.isDup = false)
+    (h2 : h.pskModes.isDup = false) (h3 : h.keyShare.isDup = false) (h4 : h.supGroups.isDup = false)
+    (h5 : h.pha.isDup = false) (h6 : h.sigAlgs.isDup = false) (h7 : h.earlyData.isDup = false) :
+    ∃ r, chkTls13 h = .ok r := by
+  unfold chkTls13
+  rcases offers13_total h hd hn with ho | ⟨vs, hs, ho⟩
+  · rw [ho]; exact ⟨_, rfl⟩
+  · rw [ho, hs]
+    simp only
+    apply chkPsk_total h _ _ h1 h2 h3 h4 h5
+    intro b
+    obtain ⟨r1, e1⟩ := chkKeyShare_total h vs b h4 h3
+    rw [e1]
+    cases r1 with
+    | some a => exact ⟨_, rfl⟩
+    | none =>
+      obtain ⟨r2, e2⟩ := chkKeyExchange_total h b h6 h1 h2
+      simp only
+      rw [e2]
+      cases r2 with
+      | some a => exact ⟨_, rfl⟩
+      | none => exact chkEarlyData_total h h7 h1
+
+
+theorem shkTls13_total (c : CliState) (h : SH) (hd : h.supportedVersions.isDup = false)
+    (h1 : h.keyShare.isDup = false) (h2 : h.psk.isDup = false)
+    (hsel : ∀ rv, shRealVersion h = .ok rv → 0x0303 < rv → h.selectionOk c = true) :
+    ∃ r, shkTls13 c h = .ok r := by
+  unfold shkTls13
+  have hrv : ∃ rv, shRealVersion h = .ok rv := by
+    unfold shRealVersion
+    split
+    · cases hs : h.supportedVersions with
+      | dup => rw [hs] at hd; exact Bool.noConfusion hd
+      | absent => exact ⟨_, rfl⟩
+      | present v => exact ⟨_, rfl⟩
+    · exact ⟨_, rfl⟩
+  obtain ⟨rv, hr⟩ := hrv
+  rw [hr]
+  simp only
+  split
+  · exact ⟨_, rfl⟩
+  · rename_i hlt
+    have hs := hsel rv hr (Nat.lt_of_not_le hlt)
+    rw [withExt_ok _ _ h1, withExt_ok _ _ h2]
+    unfold SH.selectionOk at hs
+    cases hk : h.keyShare with
+    | dup => rw [hk] at h1; exact Bool.noConfusion h1
+    | absent =>
+      cases hp : h.psk with
+      | dup => rw [hp] at h2; exact Bool.noConfusion h2
+      | absent => simp [hk, hp, Ext.toOption] at hs
+      | present sel =>
+        rcases sel with _ | i
+        · simp [hk, hp] at hs
+        · cases hn : c.pskIdsSent with
+          | none => simp [hk, hp, hn] at hs
+          | some n =>
+            simp only [hk, hp, hn, Ext.toOption, Bool.true_and, Bool.and_eq_true, decide_eq_true_eq] at hs
+            simp [Ext.toOption, done, hs.1]
+    | present ks =>
+      rcases ks with _ | g
+      · simp [hk] at hs
+      · cases hsn : c.sharesSent with
+        | none => simp [hk, hsn] at hs
+        | some sent =>
+          cases hp : h.psk with
+          | dup => rw [hp] at h2; exact Bool.noConfusion h2
+          | absent =>
+            simp only [hk, hp, hsn, Ext.toOption, Bool.and_eq_true] at hs
+            have hg : g ∈ sent := by simpa using hs.1.1
+            simp [Ext.toOption, done, hg]
+          | present sel =>
+            rcases sel with _ | i
+            · simp [hk, hp, hsn] at hs
+            · cases hn : c.pskIdsSent with
+              | none => simp [hk, hp, hsn, hn] at hs
+              | some n =>
+                simp only [hk, hp, hsn, hn, Ext.toOption, Bool.and_eq_true, decide_eq_true_eq] at hs
+                have hg : g ∈ sent := by simpa using hs.1.1
+                simp [Ext.toOption, done, hg, hs.1.2]
+
+
 end Tls.ErrPath
